@@ -20,11 +20,31 @@ Proof. intros E W n cs I. apply W. rewrite E. apply in_app_iff. right. exact I. 
 Lemma filter_all {A} (f : A -> bool) l : (forall x, In x l -> f x = true) -> filter f l = l.
 Proof. induction l as [|a t IH]; intros H; simpl; [reflexivity|]. rewrite (H a (or_introl eq_refl)). f_equal. apply IH. intros x I. apply H. right. exact I. Qed.
 
-Lemma concat_src_ok_extend a c v : concat_src_ok a = true -> builder_extend_const a c v = OExtend a [(c, EConst v)] false no_window.
+Lemma builder_extend_const_cases a c v : concat_src_ok a = true ->
+  builder_extend_const a c v = OExtend a [(c, EConst v)] false no_window \/
+  exists s0 ops0, a = OExtend s0 ops0 false no_window /\ builder_extend_const a c v = OExtend s0 (ops0 ++ [(c, EConst v)]) false no_window.
 Proof.
-  destruct a as [n cs|s ops wd w|s ops gb|s x|s cs|s ds|s m|s m dels|s cs rev lim|a1 b1 on_a on_b jt|a1 b1 idc an bn]; simpl; try reflexivity.
-  - destruct wd; [reflexivity|]. destruct w as [[|p1 pt] [|o1 ot] [|r1 rt]]; try reflexivity. discriminate.
-  - destruct lim; [reflexivity|discriminate].
+  destruct a as [n cs|s ops wd w|s ops gb|s x|s cs|s ds|s m|s m dels|s cs rev lim|a1 b1 on_a on_b jt|a1 b1 idc an bn]; simpl; intros H; try (left; reflexivity).
+  - destruct wd; [left; reflexivity|]. destruct w as [[|p1 pt] [|o1 ot] [|r1 rt]]; try (left; reflexivity). right. exists s, ops. split; reflexivity.
+  - destruct lim; [left; reflexivity|discriminate].
+Qed.
+
+Lemma NoDup_nodupb l : NoDup l -> nodupb l = true.
+Proof. induction 1 as [|x t Nx _ IH]; simpl; [reflexivity|]. rewrite IH, andb_true_r. apply negb_true_iff, mem_false, Nx. Qed.
+Lemma disjointb_nil_r (l : list string) : disjointb l [] = true.
+Proof. unfold disjointb. induction l; simpl; auto. Qed.
+
+Lemma bok_extend_app_const s0 ops0 c v :
+  builder_ok (OExtend s0 ops0 false no_window) = true -> ~ In c (map fst ops0) ->
+  builder_ok (OExtend s0 (ops0 ++ [(c, EConst v)]) false no_window) = true.
+Proof.
+  intros BO Nc. destruct (bok_extend_full _ _ _ _ BO) as [BOs [Ic Nk]].
+  cbn [builder_ok w_part w_order w_rev no_window]. rewrite BOs. cbn [nodupb subset forallb app andb].
+  assert (subset (ops_cols (ops0 ++ [(c, EConst v)])) (column_names s0) = true) as E1.
+  { apply subset_spec. intros x Hx. apply Ic. unfold ops_cols in *. rewrite flat_map_app in Hx. simpl in Hx. rewrite app_nil_r in Hx. exact Hx. }
+  assert (nodupb (map fst (ops0 ++ [(c, EConst v)])) = true) as E2.
+  { apply NoDup_nodupb. rewrite map_app. simpl. apply NoDup_snoc; assumption. }
+  rewrite E1, E2, disjointb_nil_r. reflexivity.
 Qed.
 
 Section Main.
@@ -337,16 +357,31 @@ Proof.
       assert (forall c, In c uj -> In c (column_names x) \/ match idc with Some c0 => c = c0 | None => False end) as Ijx.
       { intros c Hc. apply Huj in Hc. destruct Hc as [[Hc _]|Hc]; [left; apply Eax, Hc|right; exact Hc]. }
       destruct idc as [c0|].
-      - rewrite (concat_src_ok_extend x c0 (VStr lab) Okx) in ER.
-        assert (builder_ok (OExtend x [(c0, EConst (VStr lab))] false no_window) = true) as BOe by (simpl; rewrite BOx; reflexivity).
-        assert (stage1 (d_allow_extend_merges d) (OExtend x [(c0, EConst (VStr lab))] false no_window) = true) as Ste by (simpl; rewrite Stx; reflexivity).
-        assert (incl uj (column_names (OExtend x [(c0, EConst (VStr lab))] false no_window))) as Ije.
-        { intros c Hc. simpl. apply In_add_end. destruct (Ijx c Hc) as [X|X]; [left; exact X|right; exact X]. }
-        destruct (IH d _ (Some uj) m1 qx m2 BOe Ste (wf_env_unary e _ x eq_refl WFx) Nuj Ije ER) as [TX [ETX [DX _]]]. cbn [req] in DX.
-        simpl in ETX. destruct (sem_gen fl x e) as [X|] eqn:EX; [|discriminate]. simpl in ETX. injection ETX as <-.
-        exists X. split; [reflexivity|].
-        rewrite (sem_extend_const_fresh fl c0 (VStr lab) X) in DX; [exact DX| |exact (sem_rows_width fl x e X EX)].
-        apply mem_false. rewrite (sem_cols fl x e X EX). intros I. apply Hab. apply Eax, I.
+      - assert (~ In c0 (column_names x)) as Ncx by (intros I; apply Hab, Eax, I).
+        destruct (builder_extend_const_cases x c0 (VStr lab) Okx) as [EB|[s0 [ops0 [Ex EB]]]]; rewrite EB in ER.
+        + assert (builder_ok (OExtend x [(c0, EConst (VStr lab))] false no_window) = true) as BOe by (simpl; rewrite BOx; reflexivity).
+          assert (stage1 (d_allow_extend_merges d) (OExtend x [(c0, EConst (VStr lab))] false no_window) = true) as Ste by (simpl; rewrite Stx; reflexivity).
+          assert (incl uj (column_names (OExtend x [(c0, EConst (VStr lab))] false no_window))) as Ije.
+          { intros c Hc. simpl. apply In_add_end. destruct (Ijx c Hc) as [X|X]; [left; exact X|right; exact X]. }
+          destruct (IH d _ (Some uj) m1 qx m2 BOe Ste (wf_env_unary e _ x eq_refl WFx) Nuj Ije ER) as [TX [ETX [DX _]]]. cbn [req] in DX.
+          simpl in ETX. destruct (sem_gen fl x e) as [X|] eqn:EX; [|discriminate]. simpl in ETX. injection ETX as <-.
+          exists X. split; [reflexivity|].
+          rewrite (sem_extend_const_fresh fl c0 (VStr lab) X) in DX; [exact DX| |exact (sem_rows_width fl x e X EX)].
+          apply mem_false. rewrite (sem_cols fl x e X EX). exact Ncx.
+        + subst x.
+          assert (~ In c0 (map fst ops0)) as Nck by (intros I; apply Ncx; simpl; apply in_ext_cols; right; exact I).
+          pose proof (bok_extend_app_const s0 ops0 c0 (VStr lab) BOx Nck) as BOe.
+          assert (stage1 (d_allow_extend_merges d) (OExtend s0 (ops0 ++ [(c0, EConst (VStr lab))]) false no_window) = true) as Ste by exact Stx.
+          assert (incl uj (column_names (OExtend s0 (ops0 ++ [(c0, EConst (VStr lab))]) false no_window))) as Ije.
+          { intros c Hc. cbn [column_names]. unfold ext_cols. rewrite map_app, fold_left_app. simpl. apply In_add_end.
+            destruct (Ijx c Hc) as [X|X]; [left; exact X|right; exact X]. }
+          destruct (IH d _ (Some uj) m1 qx m2 BOe Ste (wf_env_unary e _ (OExtend s0 ops0 false no_window) eq_refl WFx) Nuj Ije ER) as [TX [ETX [DX _]]]. cbn [req] in DX.
+          simpl in ETX. destruct (sem_gen fl s0 e) as [S0|] eqn:ES0; [|discriminate]. simpl in ETX. injection ETX as <-.
+          assert (sem_gen fl (OExtend s0 ops0 false no_window) e = Some (sem_extend fl ops0 S0)) as EX by (simpl; rewrite ES0; reflexivity).
+          exists (sem_extend fl ops0 S0). split; [exact EX|].
+          rewrite (sem_extend_app_const fl ops0 c0 (VStr lab) S0) in DX.
+          rewrite (sem_extend_const_fresh fl c0 (VStr lab) (sem_extend fl ops0 S0)) in DX; [exact DX| |exact (sem_rows_width fl _ e _ EX)].
+          apply mem_false. rewrite (sem_cols fl _ e _ EX). exact Ncx.
       - assert (incl uj (column_names x)) as Ije by (intros c Hc; destruct (Ijx c Hc) as [X|[]]; exact X).
         destruct (IH d x (Some uj) m1 qx m2 BOx Stx WFx Nuj Ije ER) as [X [EX [DX _]]]. exists X. split; [exact EX|exact DX]. }
     assert (match idc with Some _ => concat_src_ok a = true | None => True end /\ match idc with Some _ => concat_src_ok b = true | None => True end) as [Oka Okb].
